@@ -6,17 +6,18 @@ import os
 ROOT = os.path.dirname(os.path.dirname(os.path.abspath(__file__)))
 ALL = ['C%02d' % i for i in range(1, 21)]
 
-CLAIMED = {
-    'C13': dict(
-        text='Coq theorems (Properties_C13.v) over an executable model of src/slist.c: for every operation sequence the '
-             'tail/count fields describe the chain, every call refines the reference sequence semantics, push_back appends '
-             'at the true end, pop_front on empty returns NULL, nothing faults. The model is tied to the C code on every run '
-             'by differential execution (closure of the model state space in a small scope + seeded random histories) under ASan/UBSan.',
-        note='trusted: Coq kernel; hand transcription of slist.c into SListModel.v validated only by the correspondence run; '
-             'extraction (ExtrOcamlBasic) + OCaml runner; C driver; comparison callbacks modelled as key projections',
-        technique='Coq proof (invariant + refinement by induction over operations) + model/code differential correspondence',
-        design='6 (C13)'),
-}
+import importlib
+import sys
+sys.path.insert(0, ROOT)
+CLAIMED = {}
+NOT_APPLICABLE = {}
+for pid in ALL:
+    if os.path.exists(os.path.join(ROOT, 'checks', pid.lower() + '.py')):
+        mod = importlib.import_module('checks.' + pid.lower())
+        if getattr(mod, 'MANIFEST', None):
+            CLAIMED[pid] = mod.MANIFEST
+        elif getattr(mod, 'NOT_APPLICABLE', None):
+            NOT_APPLICABLE[pid] = mod.NOT_APPLICABLE
 
 PENDING_REASON = 'check not built yet in this revision (planned: see DESIGN.md section 6)'
 
@@ -48,7 +49,7 @@ def main():
                                      '(extracted OCaml model vs ASan/UBSan C drivers rebuilt from /repo) + independent property oracles')],
         checks=checks,
         notes='All checks honour REPO (default /repo), VERIF_SEED, VERIF_TIER. See DESIGN.md.',
-        not_applicable=[dict(property_id=p, reason=PENDING_REASON) for p in ALL if p not in CLAIMED],
+        not_applicable=[dict(property_id=p, reason=NOT_APPLICABLE.get(p, PENDING_REASON)) for p in ALL if p not in CLAIMED],
     )
     with open(os.path.join(ROOT, 'MANIFEST.json'), 'w') as f:
         json.dump(m, f, indent=1)
